@@ -99,6 +99,16 @@ AREAS = {
                 'max_chunk_size in {0,1,2, small, 64, 65535-65537, 3 000 000, window sized}), window change; three quarters of the cases end with everything '
                 'arrived and three full rounds',
     },
+    'cvt': {
+        'shrink_sep': ';', 'head_sep': None, 'needs_bin': True,
+        'rule': 'the `adlt convert` binary built from the working tree on 1-3 (thorough 1-4) generated DLT files (1-24 / 1-60 messages in total over '
+                '2 ECUs, files recorded by ECU 0, ECU 1 or both, one after the other or interleaved, reboots and late timestamps so that several '
+                'lifecycles incl. merged ones arise, marker-free garbage between messages, empty and garbage-only files, unique reception times) with a '
+                'random option set: -b / -e (also empty and out-of-range windows), --lcs with 1-3 ids, --eac with 1-2 ECU:APID:CTID expressions '
+                '(literals, empty parts, regexes), -f with a dlt-viewer DLF document of 1-3 generated filters or a dlt-convert APID/CTID list of 1-3 '
+                'entries (ids shorter than 4), --sort, -a / -x / -s / none, -o, the file arguments permuted (sometimes one named twice); every case runs '
+                'the binary three times: unfiltered (lifecycle listing), with the options, with the options and the file arguments in another order',
+    },
     'dp': {
         'shrink_sep': ';', 'head_sep': None,
         'rule': 'byte streams built from items: well-formed messages (all 32 combinations of the optional header parts, both byte orders, '
@@ -194,9 +204,14 @@ PROPS = {
                      'Props.C16_eventually_settles', 'Props.C16_consts'],
         'n_quick': [250, 3000], 'n_thorough': [4000, 150000], 'env': {'VERIF_JOBS': '16'},
     },
+    'C14': {
+        'id': 'C14', 'area': 'cvt',
+        'theorems': ['Props.C14_input_numbered', 'Props.C14_select', 'Props.C14_select_sorted', 'Props.C14_each_once'],
+        'n_quick': 400, 'n_thorough': 12000, 'env': {'VERIF_JOBS': '16'},
+    },
     'C05': {
         'id': 'C05', 'area': 'lc',
-        'theorems': ['Props.C05_once_in_order', 'Props.C05_assigned_own_ecu'],
+        'theorems': ['Props.C05_once_in_order', 'Props.C05_assigned_own_ecu', 'Props.C05_never_stops'],
         'n_quick': 4000, 'n_thorough': 120000, 'project': _lc_project,
     },
     'C06': {
